@@ -80,3 +80,8 @@ package parser
 //@   requires cloinv(f)
 //@   ensures  [others] ast.OthersKept() && cloinv(f)
 //@   assigns  nothing
+
+//@ -- ------------------------------------------------------------ renderer: read-only, total
+//@ func (e EndNode) String() (r string)
+//@   props C07,C14
+//@   assigns  nothing
